@@ -54,6 +54,8 @@ func runC11(tier string, _ []string) int {
 		var g *genType
 		if i%10 == 9 {
 			g = static
+		} else if i%500 == 3 {
+			g = &genType{T: reflect.TypeOf(struct{}{})} // nothing declared at all
 		} else {
 			g = genConfigType(r, r.Chance(0.3), 0)
 		}
@@ -61,7 +63,11 @@ func runC11(tier string, _ []string) int {
 		var prior reflect.Value
 		if r.Chance(0.3) {
 			prior = reflect.New(g.T).Elem()
-			prior.Field(0).SetString(id)
+			for j, f := range g.Fields {
+				if f.Shape == "id" {
+					prior.Field(j).SetString(id)
+				}
+			}
 		} else {
 			prior = genConfigValue(r, g, 6, id)
 		}
@@ -178,7 +184,7 @@ func runC11(tier string, _ []string) int {
 				err = data.MergeEdgePoints(id, parent, epts, target)
 			}
 			if onlyUndecl {
-				if err != nil {
+				if err != nil && len(g.Fields) > 0 { // (a struct without an id field cannot be the target of a merge: that error is fine)
 					c.Violate("decode:undeclared-type-error", "points of undeclared types produced an error: "+err.Error(), wit)
 					return
 				}
